@@ -65,6 +65,7 @@ def generate(seed: int, tier: str) -> dict:
         docs.append(g.program())
     events: list[dict] = []
     live: set[int] = set()
+    held: dict[int, int] = {}
     n = rng.randint(6, 30 if tier == "thorough" else 18)
     tag = 0
     for _ in range(n):
@@ -73,8 +74,23 @@ def generate(seed: int, tier: str) -> dict:
             d = rng.randrange(ndocs)
             events.append({"ev": "create", "d": d})
             live.add(d)
+            held[d] = 0
             continue
         d = rng.choice(sorted(live))
+        long_probes = [p for p in docs[d]["probes"] + docs[d].get("deref_probes", []) if len(p) >= 2 and p[1] != "->"]
+        if long_probes and r > 0.5 and r < 0.6:
+            # keep a handle to a nested expression now, use it later (after other documents came and went)
+            events.append({"ev": "hold", "d": d, "probe": rng.choice(long_probes)})
+            held[d] = held.get(d, 0) + 1
+            continue
+        if r > 0.40 and r <= 0.45:
+            # many short-lived documents: whatever bookkeeping the registry does per entry gets exercised
+            events.append({"ev": "churn", "n": rng.choice([20, 60, 150])})
+            continue
+        holders = sorted(x for x in live if held.get(x))
+        if holders and r > 0.25 and r <= 0.5:
+            events.append({"ev": "resolve_held", "d": rng.choice(holders), "k": rng.randrange(4)})
+            continue
         if r < 0.6:
             probe = rng.choice(docs[d]["probes"])
             if docs[d].get("deref_probes") and rng.random() < 0.3:
@@ -83,14 +99,17 @@ def generate(seed: int, tier: str) -> dict:
         elif r < 0.68:
             tag += 1
             events.append({"ev": "assign", "d": d, "probe": rng.choice(docs[d]["probes"]), "value": (base + d) * 1000 + 900 + tag})
+            held[d] = 0
         elif r < 0.74:
             tag += 1
             events.append({"ev": "scope_edit", "d": d, "path": "@" * rng.choice([1, 1, 2]) + rng.choice(scopegen.NAMES), "value": str((base + d) * 1000 + 900 + tag)})
+            held[d] = 0
         elif r < 0.82:
             events.append({"ev": "inherit_copy", "d": d, "name": rng.choice(scopegen.NAMES)})
         elif r < 0.92:
             events.append({"ev": "drop", "d": d})
             live.discard(d)
+            held[d] = 0
             if rng.random() < 0.5:
                 events.append({"ev": "reuse_probe"})
         else:
@@ -123,6 +142,7 @@ def execute(case: dict):
     texts = [d["text"] for d in docs]
     live: dict[int, object] = {}
     copies: dict[int, list] = {}
+    holds: dict[int, list] = {}  # document -> [(handle, full probe path)]
     dead_ids: set[int] = set()
 
     def bump(k, n=1):
@@ -235,10 +255,27 @@ def execute(case: dict):
                 if viols:
                     break
                 continue
+            if kind == "churn":
+                for k in range(ev["n"]):
+                    t = parse("let\n  v = %d;\n  w = v;\nin\nrec {\n  a = w;\n  b = a;\n  c = { d = b; };\n}\n" % k)
+                    for key in ("a", "b"):
+                        try:
+                            t[key].value
+                        except ResolutionError:
+                            pass
+                    try:
+                        t["c"]["d"].value
+                    except ResolutionError:
+                        pass
+                    del t
+                bump("churn_documents", ev["n"])
+                bump("volatile:registry_size_after_churn", len(resolution._CONTEXTS))
+                continue
             d = ev["d"]
             if kind == "create":
                 live[d] = parse(texts[d])
                 copies.setdefault(d, [])
+                holds[d] = []
                 continue
             src = live.get(d)
             if src is None:
@@ -254,6 +291,7 @@ def execute(case: dict):
                     dead_ids.add(id(c))
                 del live[d]
                 copies[d] = []
+                holds[d] = []
                 src = None
                 dead_ids.update(before_ids - set(resolution._CONTEXTS))
                 dead = sum(1 for r, _ in list(resolution._CONTEXTS.values()) if r() is None)
@@ -264,6 +302,42 @@ def execute(case: dict):
             except Exception as e:  # noqa: BLE001
                 viols.append(Violation("C10.rebuild_failed", "rebuild raised %r" % (e,), step, {"doc": d}))
                 break
+            if kind == "hold":
+                probe = ev["probe"]
+                try:
+                    handle = src[probe[0]]
+                except Exception:  # noqa: BLE001
+                    bump("skip:hold_failed")
+                    continue
+                holds.setdefault(d, []).append((handle, probe))
+                bump("holds")
+                continue
+            if kind == "resolve_held":
+                hs = holds.get(d) or []
+                if not hs:
+                    bump("skip:nothing_held")
+                    continue
+                handle, probe = hs[ev["k"] % len(hs)]
+                exp, info = resolver.resolve_attr(current, probe)
+                if exp is None or not info.get("is_reference"):
+                    bump("skip:probe_not_reference")
+                    continue
+                try:
+                    cur = handle
+                    for seg in probe[1:]:
+                        cur = cur[seg]
+                except Exception as e:  # noqa: BLE001
+                    bump("skip:traverse_failed:" + type(e).__name__)
+                    continue
+                if not isinstance(cur, Identifier):
+                    bump("skip:probe_not_identifier")
+                    continue
+                bump("probe:resolved_through_held_handle")
+                check_resolution(d, ".".join(probe) + " (held) -> " + str(info.get("ref_name")), cur, exp, step, info.get("wrappers"))
+                continue
+            if kind in ("assign", "scope_edit"):
+                # an edit may replace the objects a handle points into: handles taken before it are dropped
+                holds[d] = []
             if kind in ("resolve", "assign"):
                 probe = ev["probe"]
                 exp, info = resolver.resolve_attr(current, probe)
